@@ -92,6 +92,7 @@ WHITELIST = [
     ("merge_journalled_entries", ["arr", "arr", "barr", "arr", "arr", "arr"]),
     ("merge_indexed_journalled_entries_count", ["arr", "arr", "barr", "arr", "arr"]),
     ("compare_indexed_rows_for_journalling", ["arr", "arr", "arr", "arr", "arr", "arr", "barr"]),
+    ("categorical_transform", ["arr", "int", "arr2", "arr", "arr", "arr", "arr", "arr"]),
 ]
 
 LEAN_T = {"int": "Int", "bool": "Bool", "arr": "List Int", "barr": "List Bool", "opt_arr": "Option (List Int)",
@@ -480,6 +481,15 @@ class Kernel:
                         binds += b
                         bounds.append(f"(some {x})")
                 return tb_, f"(pySlice {xb_} {bounds[0]} {bounds[1]})", binds
+            if isinstance(sl, ast.Tuple):
+                # `a[i, j]` on a 2-D array (the list of its rows): row `i`, then entry `j`, both checked
+                if tb_ != "arr2" or len(sl.elts) != 2:
+                    raise Unsupported(f"tuple subscript of a {tb_}")
+                (ti, xi, bi), (tj, xj, bj) = self.expr(sl.elts[0], defined), self.expr(sl.elts[1], defined)
+                if ti != "int" or tj != "int":
+                    raise Unsupported("2-D subscript with a non-integer index")
+                row, tmp = self.fresh(), self.fresh()
+                return "int", tmp, bb_ + bi + bj + [(row, f"idxE {xb_} {xi} {site}"), (tmp, f"idxE {row} {xj} {site}")]
             c = self.neg_const(sl)
             if c is not None:
                 tmp = self.fresh()
@@ -516,6 +526,11 @@ class Kernel:
             if t not in ELEM:
                 raise Unsupported(f"len of a {t}")
             return "int", f"(pyLen {x})", b
+        if f in ("int", "np.int64", "numpy.int64") and len(n.args) == 1 and not n.keywords:
+            t, x, b = self.expr(n.args[0], defined)
+            if t != "int":
+                raise Unsupported(f"{f} of a {t}")
+            return "int", x, b                    # ints are unbounded: the cast is the identity (fixed width is not modelled)
         if f in ("min", "max") and len(n.args) == 2 and not n.keywords:
             (ta, xa, ba), (tb, xb, bb) = self.expr(n.args[0], defined), self.expr(n.args[1], defined)
             if ta != "int" or tb != "int":
